@@ -4,8 +4,11 @@ Tested side: server-mode Transport + RecordingServer with a generated verdict pe
 A raw puppet client sends a generated sequence (<= 40) of authentication messages: USERAUTH_REQUESTs
 over usernames {a, b, ""}, services {ssh-connection, ssh-userauth, x}, methods {none, password,
 password-change, publickey probe, publickey with a valid signature, keyboard-interactive,
-gssapi-with-mic, gssapi-keyex (stub GSS context)} and USERAUTH_INFO_RESPONSEs; either one by one
-(reading the replies of each) or pipelined (all written back to back before anything is read).
+gssapi-with-mic, gssapi-keyex (stub GSS context)}, USERAUTH_INFO_RESPONSEs and further
+SERVICE_REQUESTs (mostly for ssh-userauth again - what a client does that requests the service
+before every attempt - rarely for another name) at arbitrary points between the requests and inside
+exchanges; either one by one (reading the replies of each) or pipelined (all written back to back
+before anything is read).
 Multi-message exchanges are generated as blocks: a keyboard-interactive request that the
 application answers with an InteractiveQuery, then 1-3 INFO_RESPONSE rounds (application result
 per round: a further query / FAILED / PARTIAL / SUCCESSFUL) with 0-2 other requests (same or
@@ -14,7 +17,10 @@ answers to a keyboard-interactive request / an INFO_RESPONSE is carried by the m
 (submethods / first answer), so it does not depend on the order in which the server evaluates.
 
 Model (from the statement): the first username that is evaluated is pinned - for the whole
-connection, i.e. also across the messages of an exchange. A request naming another service, or
+connection, i.e. also across the messages of an exchange and across a repeated SERVICE_REQUEST for
+ssh-userauth, which changes nothing: neither the pinned username nor the failures counted so far (a
+SERVICE_REQUEST for any other name is the last message sent: the statement does not say what it does,
+only that nobody may be authenticated by it). A request naming another service, or
 another username, ends the connection: no callback for it, nobody authenticated. Every FAILED
 result is a failed attempt, whichever message delivered it (the answer to a request or to an
 INFO_RESPONSE); the tenth ends the connection. Once the connection has ended no credential is
@@ -42,11 +48,14 @@ LEVEL = "exploration"
 THOROUGH_WORKERS = 16
 RULE = (
     "hypothesis-generated message sequences (1..40) over 3 usernames x 3 services x 8 methods (incl. gssapi-with-mic / gssapi-keyex "
-    "on a stub context) plus INFO_RESPONSE messages, with generated callback verdicts (FAILED/PARTIAL/SUCCESSFUL per method and "
+    "on a stub context) plus INFO_RESPONSE messages and repeated SERVICE_REQUESTs (ssh-userauth again; rarely a foreign name, which ends the "
+    "generated sequence) between requests and inside exchanges, with generated callback verdicts (FAILED/PARTIAL/SUCCESSFUL per method and "
     "password; per message for keyboard-interactive requests and INFO_RESPONSEs, incl. further InteractiveQuery rounds); sequences are "
     "built from single requests and from whole keyboard-interactive exchanges (request + 1..3 rounds, 0..2 other requests interleaved "
-    "before each round); three program styles (grinding one user towards the failure cap, username switches, fully mixed), each run "
-    "one-by-one or pipelined; compared with a model of the statement that counts a FAILED result whichever message delivered it; "
+    "before each round); four program styles (grinding one user towards the failure cap, username switches, fully mixed, a service request "
+    "before every attempt with the username changing at a generated point), each run "
+    "one-by-one or pipelined; compared with a model of the statement that counts a FAILED result whichever message delivered it and keeps "
+    "the pinned username and the failure count across repeated service requests; "
     "non-trivial = the model reaches a username switch, a foreign service or ten failures; distinct by (policy, mode, sequence)"
 )
 
@@ -78,6 +87,16 @@ def resp_st(r):
     return st.fixed_dictionaries({"m": st.just("resp"), "r": r, "n": st.integers(0, 2)})
 
 
+SVCNAMES = ["ssh-userauth", "ssh-connection", "x", ""]
+# a further SERVICE_REQUEST in the middle of the authentication exchange (mostly for ssh-userauth, which is accepted again)
+svcreq_st = st.fixed_dictionaries({"m": st.just("svcreq"), "name": st.sampled_from(["ssh-userauth"] * 57 + SVCNAMES[1:])})
+
+
+def _with_svcreq(elem, n):
+    """`elem`, but one element in n is a SERVICE_REQUEST (one_of would give it the weight of a whole alternative)."""
+    return st.integers(0, n - 1).flatmap(lambda k: svcreq_st if k == 0 else elem)
+
+
 def policy_st(weights):
     r = st.sampled_from(weights)
     return st.fixed_dictionaries({"none": r, "password": st.fixed_dictionaries({"good": r, "bad": r}), "pk": r, "keyex": r})
@@ -102,7 +121,7 @@ def _flat(blocks):
 
 @st.composite
 def cases(draw):
-    style = draw(st.sampled_from(["grind", "grind", "grind-requests-only", "switch", "switch", "mixed"]))
+    style = draw(st.sampled_from(["grind"] * 4 + ["grind-requests-only"] * 2 + ["switch"] * 3 + ["mixed", "rerequest", "rerequest"]))
     meth = st.sampled_from(METHODS)
     if style == "grind-requests-only":
         user = draw(st.sampled_from(USERS))
@@ -111,15 +130,29 @@ def cases(draw):
         main = req_st(st.just(user), st.just("ssh-connection"), meth, r)
         odd = req_st(st.sampled_from(USERS), st.sampled_from(SERVICES), meth, r)
         reqs = draw(st.lists(main, min_size=9, max_size=22)) + draw(st.lists(st.one_of(main, main, odd), max_size=3))
+    elif style == "rerequest":
+        # the pattern of a client that requests the service before every attempt: (SERVICE_REQUEST, request)*,
+        # with the username staying or changing at a generated point
+        pol = draw(policy_st(["F", "P", "P", "S"]))
+        r = st.sampled_from(["F", "P", "P", "query"])
+        u1 = draw(st.sampled_from(USERS))
+        main = req_st(st.just(u1), st.just("ssh-connection"), meth, r)
+        other = req_st(st.sampled_from(USERS), st.sampled_from(["ssh-connection"] * 5 + ["ssh-userauth"]), meth, r)
+        reqs = []
+        for j in range(draw(st.integers(1, 6))):
+            reqs += draw(st.lists(svcreq_st, max_size=2))
+            reqs.append(draw(st.one_of(main, main.map(lambda x: x), other)) if j else draw(main))
+            if draw(st.integers(0, 3)) == 0:
+                reqs.append(draw(resp_st(r)))
     elif style == "grind":
         user = draw(st.sampled_from(USERS))
         pol = draw(policy_st(["F", "F", "F", "F", "P"]))
         r = st.sampled_from(["F", "F", "F", "P", "query"])
         main = req_st(st.just(user), st.just("ssh-connection"), meth, r)
         odd = req_st(st.sampled_from(USERS), st.sampled_from(SERVICES), meth, r)
-        xch = exchange(main, main, r)
-        reqs = _flat(draw(st.lists(st.one_of(main, main, main, main, resp_st(r), xch, xch), min_size=7, max_size=18)))
-        tail = _flat(draw(st.lists(st.one_of(main, main, odd, resp_st(r)), max_size=3)))
+        xch = exchange(main, _with_svcreq(main, 6), r)
+        reqs = _flat(draw(st.lists(_with_svcreq(st.one_of(main, main, main, main, resp_st(r), xch, xch), 10), min_size=9, max_size=20)))
+        tail = _flat(draw(st.lists(st.one_of(main, main, odd, resp_st(r), svcreq_st), max_size=3)))
         reqs = (reqs + tail)[:MAXLEN]
     elif style == "switch":
         pol = draw(policy_st(["F", "P", "P", "S"]))
@@ -128,13 +161,14 @@ def cases(draw):
         main = req_st(st.just(u1), st.just("ssh-connection"), meth, r)
         other = req_st(st.sampled_from(USERS), st.sampled_from(["ssh-connection", "ssh-connection", "ssh-connection", "ssh-connection", "ssh-userauth"]), meth, r)
         any_ = st.one_of(main, main, main, other)
-        xch = exchange(main, any_, r)
-        reqs = _flat(draw(st.lists(st.one_of(any_, any_, any_, any_, resp_st(r), xch, xch), min_size=2, max_size=12)))
+        xch = exchange(main, _with_svcreq(any_, 6), r)
+        reqs = _flat(draw(st.lists(_with_svcreq(st.one_of(any_, any_, any_, any_, resp_st(r), xch, xch), 5), min_size=2, max_size=12)))
     else:
         pol = draw(policy_st(["F", "P", "S"]))
         r = st.sampled_from(["F", "P", "S", "query"])
         any_ = req_st(st.sampled_from(USERS), st.sampled_from(SERVICES), meth, r)
-        reqs = _flat(draw(st.lists(st.one_of(any_, any_, any_, any_, resp_st(r), exchange(any_, any_, r), exchange(any_, any_, r)), min_size=1, max_size=20)))
+        btw = _with_svcreq(any_, 6)
+        reqs = _flat(draw(st.lists(_with_svcreq(st.one_of(any_, any_, any_, any_, resp_st(r), exchange(any_, btw, r), exchange(any_, btw, r)), 6), min_size=1, max_size=20)))
     return {"policy": pol, "gss": draw(st.booleans()), "pipelined": draw(st.booleans()), "reqs": reqs}
 
 
@@ -144,6 +178,8 @@ def cases(draw):
 def verdict_of(pol, rq):
     """What the application answers to this message (None: no callback is responsible)."""
     m = rq["m"]
+    if m == "svcreq":
+        return None
     if m in ("kbd", "resp"):
         return rq.get("r") or pol.get("kbd", "F")
     if m == "pwchange":
@@ -170,15 +206,23 @@ def model(case):
     dead = False
     authed = False
     gss_open = False
+    over = False  # a SERVICE_REQUEST for a foreign service was sent: nothing behind it is modelled (nor sent)
     out = []
     for rq in case["reqs"]:
-        e = {"cbs": [], "cause": None, "live": not dead and not authed, "skip": False, "opens": False, "by": None, "after_open": gss_open}
+        e = {"cbs": [], "cause": None, "live": not dead and not authed and not over, "skip": False, "opens": False, "by": None, "after_open": gss_open, "over": False}
         m = rq["m"]
         v = None
         if m == "resp" and gss_open:
             e["skip"] = True
-        elif dead or authed:
+        elif dead or authed or over:
             pass
+        elif m == "svcreq":
+            # ssh-userauth is accepted again and changes nothing: the pinned username and the failures counted so
+            # far belong to the connection. Any other name: the statement says nothing about it (the tree under test
+            # ends the session with SERVICE_NOT_AVAILABLE): it is the last message of the sequence that is sent, an
+            # end there is tolerated, and of course nobody may be authenticated by it.
+            if rq["name"] != "ssh-userauth":
+                over = e["over"] = True
         elif m == "resp":
             e["cbs"].append((CB["resp"], None))
             v = verdict_of(pol, rq)
@@ -245,6 +289,8 @@ def make_policy(case):
 
 def payload(s, rq, pol):
     m = rq["m"]
+    if m == "svcreq":
+        return peers.m_service_request(rq["name"].encode())
     if m == "resp":
         return A.info_response([PLAN + verdict_of(pol, rq)] + ["x"] * rq.get("n", 0))
     u, svc = rq["u"], rq["svc"]
@@ -275,6 +321,8 @@ USER_CBS = ("check_auth_none", "check_auth_password", "check_auth_publickey", "c
 
 
 def _desc(rq):
+    if rq["m"] == "svcreq":
+        return ("SERVICE_REQUEST", rq["name"])
     return ("INFO_RESPONSE", rq.get("r")) if rq["m"] == "resp" else (rq["u"], rq["svc"], rq["m"]) + ((rq.get("r"),) if rq["m"] == "kbd" else ())
 
 
@@ -291,10 +339,30 @@ def evidence_classes(case, mdl, classes):
             classes.add("gssapi-with-mic-exchange-opened")
         if rq["m"] == "keyex" and case.get("gss"):
             classes.add("gssapi-keyex-evaluated")
+    # repeated SERVICE_REQUESTs: where in the exchange they fall, and what the next request does
+    for j, (rq, e) in enumerate(live):
+        if rq["m"] != "svcreq":
+            continue
+        classes.add("service-rerequest:" + ("ssh-userauth" if rq["name"] == "ssh-userauth" else "foreign-service"))
+        if rq["name"] != "ssh-userauth":
+            continue
+        if e["pinned"] is not None:
+            classes.add("service-rerequest:after-a-username-was-pinned")
+        if e["fails"]:
+            classes.add("service-rerequest:after-failed-attempts")
+        nxt = next(((r2, e2) for r2, e2 in live[j + 1 :] if r2["m"] not in ("svcreq", "resp")), None)
+        if nxt is not None and e["pinned"] is not None:
+            classes.add("service-rerequest:next-request-names-" + ("another-user" if nxt[0]["u"] != e["pinned"] else "the-pinned-user"))
+        if any(x["cause"] == "cap" for _, x in live[j + 1 :]):
+            classes.add("service-rerequest:before-the-cap-is-reached")
     # keyboard-interactive exchanges: rounds judged, requests interleaved, how they ended
     rounds = between = None
     for rq, e in live:
         m = rq["m"]
+        if m == "svcreq":
+            if rounds is not None:
+                classes.add("service-rerequest:inside-kbd-exchange")
+            continue
         if m == "resp":
             if rounds is None:
                 classes.add("info-response-without-open-exchange")
@@ -419,7 +487,7 @@ def _run(ctx, case, mdl, reqs, s, classes):
     # messages behind a modelled success are not part of the statement: stop there
     stop = len(reqs)
     for i, e in enumerate(mdl):
-        if e["authed"]:
+        if e["authed"] or e["over"]:
             stop = i + 1
             break
     while stop > 0 and mdl[stop - 1]["skip"]:
